@@ -254,26 +254,26 @@ CHECKS = {
 NOT_YET = "check not implemented yet in this revision (work in progress, see DESIGN.md section 3)"
 
 
-# workload families added after rounds 9 to 14 of independently seeded changes (DESIGN.md 7.9, 7.10)
+# workload families added after rounds 9 to 15 of independently seeded changes (DESIGN.md 7.9, 7.10)
 LATER = {
  "C07": "Also: task-heavy histories of 2-4 processes with per-process task and type ids, nesting depths up to 500.",
  "C15": "Also: the missing CPU index and the distance of its replacement are drawn.",
- "C06": "Also: several processes in several looms, thread ids restarting per loom, rank information on some looms, affinity-heavy histories.",
- "C03": "Also: traces reached through symbolic links, stream directories nested in stream directories, host clocks hours apart brought together by the offset table.",
+ "C06": "Also: several processes in several looms, thread ids restarting per loom, rank information on some looms, affinity-heavy histories. Also the requirements and the rank carried by a single thread of the trace.",
+ "C03": "Also: traces reached through symbolic links, stream directories nested in stream directories, host clocks hours apart brought together by the offset table. Also a stale in-trace offset table beside the one named with -c.",
  "C01": "Also: thread churn under a low descriptor limit, a program run twice into one trace directory (also on two file systems with equal inode numbers), a stream larger than 2 GiB, every call order of the event functions, a file size limit striking during the relocation.",
  "C02": "Also: 40-60 threads, threads sleeping for seconds between events, a stream larger than 2 GiB, consecutive events sharing one clock read, a previous job's trace in the directory, OVNI_TMPDIR naming the trace directory, ids up to pid_max 4194304 (metadata must agree with the directories), two threads handing a CPU over through pause / warm / cool.",
- "C04": "Also: uncompleted words run with -a and with the kernel model required.",
+ "C04": "Also: uncompleted words run with -a and with the kernel model required. Also 63-300 threads on one CPU.",
  "C05": "Also: equal thread ids in several looms and in several processes of one loom, kernel context switches around silent stretches of running threads.",
- "C08": "Also: task events, moved threads, and the ovni model's own events while the thread is out of the CPU.",
- "C09": "Also: every script under partial writes without any kill, two ordered threads, failing writes in direct mode, a 2 GiB stream and a relocation across two file systems with equal inode numbers without any fault, the refused directory presented again through links.",
- "C10": "Also: rename / sendfile / copy_file_range / link / writev / ftruncate in the fault tables, longer errno lists taken in turn over the occurrences of a call, two-thread scripts with path-scoped faults, OVNI_TMPDIR as another name of the trace directory.",
- "C11": "Also: thread churn (drivers/churndrv.c) on the TSan and the plain build, under a low descriptor limit, init/fini racing, automatic flushes of several threads in one run, thread ids congruent modulo powers of two, repeated ovni_thread_init with a hang watchdog.",
- "C12": "Also: rank attributes removed from a whole process, trailing flush pairs after the end event, mixed library versions per thread, codes with the top bit set, the emulator's options (-l, -a) rotating over the corruptions, wrong-size payloads that keep their content.",
- "C13": "Also: loom_cpus shuffled or split over threads, rank attributes carried by a single thread of a process, ranks placed cyclically / in reverse / at random, rank information on some looms only, mark types over 0..99.",
- "C14": "Also: threaded checks, padded and hexadecimal forms, a stale ERANGE in errno, attributes that only look like a requirement, well-formed strings of 62-5000 characters.",
- "C16": "Also: regions before the first event and at the very end, clocks across 2^63 and from 0, capped and failing pwrite calls (LD_PRELOAD shim), lean streams of header-only events with dense far-reaching regions.",
- "C17": "Also: conflicting definitions among 3-4 threads, wide values, threads on the virtual CPU, several looms whose threads share one id.",
- "C18": "Also: repeated and nested events, several processes, non-ASCII labels, physical CPU ids different from indices, threads with different requirement sets, remote affinity naming a switched-out thread, a task run again from another thread.",
+ "C08": "Also: task events, moved threads, and the ovni model's own events while the thread is out of the CPU. Also words written with the requirements on another thread than the emitting one.",
+ "C09": "Also: every script under partial writes without any kill, two ordered threads, failing writes in direct mode, a 2 GiB stream and a relocation across two file systems with equal inode numbers without any fault, the refused directory presented again through links. Also EINTR at the read / write points of the relocation.",
+ "C10": "Also: rename / sendfile / copy_file_range / link / writev / ftruncate in the fault tables, longer errno lists taken in turn over the occurrences of a call, two-thread scripts with path-scoped faults, OVNI_TMPDIR as another name of the trace directory. Also file size limits (RLIMIT_FSIZE) that make the kernel return genuine short counts during the relocation.",
+ "C11": "Also: thread churn (drivers/churndrv.c) on the TSan and the plain build, under a low descriptor limit, init/fini racing, automatic flushes of several threads in one run, thread ids congruent modulo powers of two, repeated ovni_thread_init with a hang watchdog. Also racers passing different pid arguments.",
+ "C12": "Also: rank attributes removed from a whole process, trailing flush pairs after the end event, mixed library versions per thread, codes with the top bit set, the emulator's options (-l, -a) rotating over the corruptions, wrong-size payloads that keep their content. Also header bytes set to 0x00 / 0x20.",
+ "C13": "Also: loom_cpus shuffled or split over threads, rank attributes carried by a single thread of a process, ranks placed cyclically / in reverse / at random, rank information on some looms only, mark types over 0..99. Also stale output files of an earlier emulation in the directory.",
+ "C14": "Also: threaded checks, padded and hexadecimal forms, a stale ERANGE in errno, attributes that only look like a requirement, well-formed strings of 62-5000 characters. Also 255-513 streams requiring one model.",
+ "C16": "Also: regions before the first event and at the very end, clocks across 2^63 and from 0, capped and failing pwrite calls (LD_PRELOAD shim), lean streams of header-only events with dense far-reaching regions. Also 40-60 extra streams under ulimit -n 32.",
+ "C17": "Also: conflicting definitions among 3-4 threads, wide values, threads on the virtual CPU, several looms whose threads share one id. Also titles and labels with quotes, backslashes, braces, non-ASCII letters.",
+ "C18": "Also: repeated and nested events, several processes, non-ASCII labels, physical CPU ids different from indices, threads with different requirement sets, remote affinity naming a switched-out thread, a task run again from another thread. Also flush markers and sorting regions on cooling, warming and paused threads.",
  "C19": "Also: extreme clocks in sort windows, field-boundary mutants, remote-affinity insertions, every metadata string grown to lengths around the powers of two, labels of 950-1030 characters, task and thread-state events out of order.",
  "C20": "Also: bare pauses judged at every instant, 1-3 looms, no record may rewrite a row with the value it holds.",
 }
